@@ -23,7 +23,8 @@ EXTENDS Integers, Sequences, FiniteSets, TLC, SequencesExt
 
 CONSTANTS
   NP,            \* number of goroutines
-  MaxCalls,      \* calls per goroutine (bound of the exhaustive run)
+  MaxCalls,      \* calls per goroutine (bound of the exhaustive run) ...
+  NFull,         \* ... for goroutines 1..NFull; the others make one call
   MaxOps,        \* bound on Len(hist) (behaviour generation)
   LogOn,         \* TRUE: every step is appended to hist (generation); FALSE: hist stays empty
   U,             \* name of the universe of subscribers / messages (see Subs, Msgs below)
@@ -49,6 +50,7 @@ dvars == <<keys, tab, handled, wlock, rlock, pc, cur, res, vis, sp, dl, ncall, l
 vars  == <<keys, tab, handled, wlock, rlock, pc, cur, res, vis, sp, dl, ncall, lin, mustDrop, done, cd, dev, hist>>
 
 Procs == 1..NP
+CallBound(p) == IF p <= NFull THEN MaxCalls ELSE 1
 Log(e) == hist' = IF LogOn THEN Append(hist, e) ELSE hist
 
 -----------------------------------------------------------------------------
@@ -179,7 +181,7 @@ Step(p, a)      == Log([p |-> p, a |-> a])
 
 (* ---- a goroutine starts a call ------------------------------------------------------------- *)
 Call(p, c) ==
-  /\ pc[p] = "idle" /\ ncall[p] < MaxCalls /\ c \in Calls
+  /\ pc[p] = "idle" /\ ncall[p] < CallBound(p) /\ c \in Calls
   /\ cur' = [cur EXCEPT ![p] = c]
   /\ Goto(p, CASE c.op = "reg" -> "r0" [] c.op = "unreg" -> "u0" [] c.op = "disp" -> "d_chk")
   /\ SetRes(p, "")
@@ -326,7 +328,7 @@ Internal(p) ==
   \/ DChk(p) \/ DPeek(p) \/ DRLock(p) \/ DChk2(p) \/ (pc[p] = "d_iter" /\ \E s \in tab[Typ(p)] : DIter(p, s)) \/ DIterEnd(p)
   \/ DRUnlock(p) \/ DWait(p) \/ DMark(p)
 
-AllDone == \A p \in Procs : pc[p] = "idle" /\ ncall[p] = MaxCalls
+AllDone == \A p \in Procs : pc[p] = "idle" /\ ncall[p] = CallBound(p)
 DispNext ==
   \/ /\ Len(hist) < MaxOps
      /\ \E p \in Procs :
@@ -367,7 +369,7 @@ RepeatDropped == \A p \in Procs : mustDrop[p] => (sp[p] = {} /\ dl[p] = {} /\ (p
 TypeOK ==
   /\ keys \subseteq Types /\ wlock \in 0..NP /\ rlock \subseteq Procs
   /\ \A t \in Types : tab[t] \subseteq {s \in Subs : s.typ = t} /\ (tab[t] # {} => t \in keys)
-  /\ \A p \in Procs : ncall[p] \in 0..MaxCalls /\ dl[p] \subseteq Subs /\ sp[p] \subseteq Subs
+  /\ \A p \in Procs : ncall[p] \in 0..CallBound(p) /\ dl[p] \subseteq Subs /\ sp[p] \subseteq Subs
   /\ handled \subseteq Msgs /\ done \subseteq Msgs
 
 View == <<keys, tab, handled, wlock, rlock, pc, cur, res, vis, sp, dl, ncall, lin, mustDrop, done, cd>>
